@@ -543,6 +543,19 @@ class EffectDomain(DefaultDomain):
             return None
         key = interp._key_of(target.value, fr, st)
         cur = st.get(key, None) if key is not None else None
+        if isinstance(cur, tuple) and cur[:1] == ("tuple",) and isinstance(target.slice, ast.Slice):
+            sl = target.slice
+            if sl.lower is None and sl.upper is None and sl.step is None:
+                return st.set(key, ("tuple",))   # del x[:] empties the list, for every holder of it
+            try:
+                lo = ast.literal_eval(sl.lower) if sl.lower is not None else None
+                hi = ast.literal_eval(sl.upper) if sl.upper is not None else None
+                step = ast.literal_eval(sl.step) if sl.step is not None else None
+            except (ValueError, TypeError, SyntaxError):
+                return st.set(key, TOP)
+            items = list(cur[1:])
+            del items[slice(lo, hi, step)]
+            return st.set(key, ("tuple",) + tuple(items))
         if not (isinstance(cur, tuple) and cur[:1] == ("kwdict",)):
             return None
         for r in interp.eval(target.slice, st, fr):
